@@ -8,6 +8,11 @@ contract("xdoctest.parser:_min_indentation", params={"s": "str"}, returns="int",
          requires=[("tabs-expanded", "'\\t' not in s")],
          ensures=[("nonneg", "result >= 0")],
          note="T: re.findall of INDENT_RE; the smallest indentation of a non-blank line, 0 if there is none")
+contract("xdoctest.parser:_source_lines", params={"s": "str"}, returns="list[str]", trusted=True, log=False, modifies=[],
+         ensures=[("the-lines-of-the-source-file", "result == S.source_lines(s)")],
+         opts={"functional": "S.source_lines(s)"},
+         note="T: re.split at \\n, \\r\\n, \\r (a trailing empty piece dropped): the lines as the source file has them; exercised by the "
+              "bounded line oracle with separator characters (bounded/c08_lines.py)")
 contract(_P + "_label_docsrc_lines", params={"self": "DoctestParser", "string": "str"}, returns="Val", trusted=True,
          requires=[("tabs-expanded", "'\\t' not in string")],
          raises={"Exception*?": None},
@@ -195,11 +200,11 @@ contract(_P + "_label_docsrc_lines#labels",
          params={"self": "DoctestParser", "string": "str"}, returns="recseq[LabeledLine]",
          requires=[("tabs-expanded", "'\\t' not in string")],
          raises={"Exception*?": None},
-         ensures=[("every-line-labelled-once", "len(result) == len(string.splitlines())")],
+         ensures=[("every-line-labelled-once", "len(result) == len(S.source_lines(string))")],
          loops={0: LoopSpec(header="line_iter",
                             types={"labeled_lines": "recseq[LabeledLine]"},
                             invariants=[("one-label-per-consumed-line", "len(labeled_lines) == line_iter.pos"),
-                                        ("the-lines-of-the-docstring", "line_iter.seq == string.splitlines()"),
+                                        ("the-lines-of-the-docstring", "line_iter.seq == S.source_lines(string)"),
                                         ("known-state", "prev_state == 'text' or prev_state == 'dsrc' or prev_state == 'dcnt' or prev_state == 'want'"),
                                         ("indent-of-the-open-example", "state_indent >= 0 and implies(prev_state == 'text', state_indent == 0)")],
                             body_post=[("label-follows-the-rule",
